@@ -16,7 +16,12 @@ FLIP = {'<': '>', '>': '<', '<=': '>=', '>=': '<=', '==': '==', '!=': '!='}
 class ModVal:
     """euclidean (inner mod cap), always in [0, cap)"""
     __slots__ = ('inner', 'cap')
-    def __init__(self, inner, cap): self.inner = inner; self.cap = cap
+    def __init__(self, inner, cap):
+        # canonical representative: multiples of the capacity symbol do not change the residue
+        if isinstance(cap, Lin) and cap.c == 0 and len(cap.t) == 1 and isinstance(inner, Lin):
+            (s_, c_), = cap.t.items()
+            if c_ == 1 and s_ in inner.t: inner = Lin({k: v for k, v in inner.t.items() if k != s_}, inner.c)
+        self.inner = inner; self.cap = cap
     def __repr__(self): return f'Mod({self.inner})'
     def __eq__(self, o): return isinstance(o, ModVal) and o.inner == self.inner and o.cap == self.cap
     def __hash__(self): return hash(('mod', self.inner))
@@ -135,9 +140,18 @@ class ContDomain(Domain):
         return Sym('param:' + p['name'])
 
     # ---- arithmetic ----------------------------------------------------------------------------------------------------------
+    def resolve_rem(self, v):
+        """a truncated remainder that the row says is >= 0 (or whose dividend cannot be negative) is the euclidean residue"""
+        if isinstance(v, Rem) and not v.unsigned_wrap:
+            if nonneg(v.a): return ModVal(v.a, v.b)
+            fact = self.rows.get(('ord', self.key_for(v, Lin.const(0))))
+            if fact in ('=', '>'): return ModVal(v.a, v.b)
+        return v
+
     def arith(self, ex, n, op, l, r, st, fr):
         if isinstance(l, Ref): l = ex.read(l.loc, st)
         if isinstance(r, Ref): r = ex.read(r.loc, st)
+        l = self.resolve_rem(l); r = self.resolve_rem(r)
         if op == '*':
             for a, b in ((l, r), (r, l)):
                 if isinstance(a, Lin) and a.t == {'sizeofT': 1} and a.c == 0:
@@ -168,7 +182,12 @@ class ContDomain(Domain):
                     return ModPlus(m.mod, m.k + k)
                 return Unknown(('modarith', n.id))
             # Lin +- Rem : ((a % b) + b)
-            if isinstance(l, Rem) and op == '+' and as_lin(r) is not None and as_lin(r) == l.b: return ('rem+b', l)
+            if isinstance(l, Rem) and op == '+' and as_lin(r) is not None and as_lin(r) == l.b:
+                if self.rows.get(('ord', self.key_for(l, Lin.const(0)))) == '<' and not l.unsigned_wrap: return ModVal(l.a, l.b)     # rem in (-b, 0): rem + b is the residue
+                return ('rem+b', l)
+            if isinstance(r, Rem) and op == '+' and as_lin(l) is not None and as_lin(l) == r.b:
+                if self.rows.get(('ord', self.key_for(r, Lin.const(0)))) == '<' and not r.unsigned_wrap: return ModVal(r.a, r.b)
+                return ('rem+b', r)
             return Unknown(('arith', n.id))
         if op == '%':
             a = l; b = as_lin(r)
@@ -179,6 +198,8 @@ class ContDomain(Domain):
                     return Unknown(('wrapped-mod', n.id))
                 return ModVal(rem.a, b)
             if isinstance(a, ModVal): a = ModPlus(a, Lin.const(0))
+            if isinstance(a, ModPlus) and b is not None and a.mod.cap == b and nonneg(a.k):
+                return ModVal(a.total(), b)          # Mod(x) + k >= 0: truncated and euclidean remainder agree
             if isinstance(a, ModPlus) and b is not None and a.mod.cap == b:
                 unsigned_op = not n.d.get('lhs_signed', True)
                 return Rem(a.total(), b, unsigned_op and not nonneg(a.k))
@@ -192,6 +213,7 @@ class ContDomain(Domain):
 
     def rem_as_index(self, v, n, st):
         """a bare truncated remainder used as an index"""
+        v = self.resolve_rem(v)
         if isinstance(v, Rem):
             if nonneg(v.a) and not v.unsigned_wrap: return ModVal(v.a, v.b)
             st.events.append(('c', n, ('bad-mod', f'`{n.text()[:50]}`: plain % on an index that may be negative ({v.a}) is not a modulo')))
@@ -202,7 +224,25 @@ class ContDomain(Domain):
     def key_for(self, l, r):
         return f'{l!r} ? {r!r}'
 
+    def deref(self, ex, n, v, st, fr):
+        if isinstance(v, Ptr): return ElemRef(ptr=v)
+        if isinstance(v, ElemRef): return v
+        return None
+
     def compare(self, ex, op, l, r, n, st, fr):
+        l = self.resolve_rem(l); r = self.resolve_rem(r)
+        if isinstance(l, Rem) and nonneg(l.a) and not l.unsigned_wrap: l = ModVal(l.a, l.b)
+        if isinstance(r, Rem) and nonneg(r.a) and not r.unsigned_wrap: r = ModVal(r.a, r.b)
+        # a residue lies in [0, cap)
+        for a_, b_, o_ in ((l, r, op), (r, l, FLIP[op])):
+            bl_ = as_lin(b_) if not isinstance(b_, (ModVal, MinVal, Bytes, Rem, ModPlus, Ptr)) else None
+            if isinstance(a_, ModVal) and bl_ is not None:
+                if bl_.is_const() and bl_.c <= 0:
+                    if o_ == '<': return False
+                    if o_ == '>=': return True
+                    if bl_.c < 0: return {'>': True, '<=': False, '==': False, '!=': True}[o_]
+                if bl_ == a_.cap:
+                    return {'<': True, '<=': True, '>': False, '>=': False, '==': False, '!=': True}[o_]
         if isinstance(l, Ptr) and isinstance(r, Ptr) and op in ('==', '!='):
             if l.base == r.base: return op == '=='
             k = f'alias({l.base},{r.base})'
